@@ -55,8 +55,9 @@ Inductive case :=
 | CBox (e : engine) (tl_lon tl_lat br_lon br_lat : Z) (docs : list (list pt)) (impl_hits : list bool)
 | CShape (e : engine) (kind : Z) (docs : list (list (Z * Z))) (impl_hits : list bool)
     (* kind 0 = distance query, 1 = polygon query; a point is (MortonHash, class) *)
-| CSort (desc : bool) (dists : list Z) (margin : Z) (impl_order : list Z).
-    (* one point per document; dists in micrometres (trusted harness computation) *)
+| CSort (desc : bool) (lo hi : list Z) (impl_order : list Z).
+    (* one point per document; [lo, hi] = interval (micrometres) that contains the document's true
+       distance under every earth radius between polar and equatorial (trusted harness computation) *)
 
 (* ---------- three-valued verdicts ---------- *)
 
@@ -324,20 +325,23 @@ Definition check_shape (e : engine) (kind : Z) (docs : list (list (Z * Z))) (hit
 
 (* ---------- distance sort ---------- *)
 
-Fixpoint ordered_by (desc : bool) (margin : Z) (ds : list Z) : bool :=
-  match ds with
-  | a :: ((b :: _) as rest) =>
-      (if desc then b <=? a + margin else a <=? b + margin) && ordered_by desc margin rest
-  | _ => true
+Fixpoint pairs_ok {A} (f : A -> A -> bool) (l : list A) : bool :=
+  match l with
+  | [] => true
+  | a :: r => forallb (f a) r && pairs_ok f r
   end.
+
+(* no hit is clearly farther (ascending) / clearly nearer (descending) than a later one *)
+Definition ordered_by (desc : bool) (lo hi : list Z) (order : list Z) : bool :=
+  let g l i := nth (Z.to_nat i) l 0 in
+  pairs_ok (fun a b => if desc then g lo b <=? g hi a else g lo a <=? g hi b) order.
 
 Definition is_perm_of_range (n : nat) (order : list Z) : bool :=
   (length order =? n)%nat &&
   forallb (fun i => (count_occ Z.eq_dec order (Z.of_nat i) =? 1)%nat) (seq 0 n).
 
-Definition check_sort (desc : bool) (dists : list Z) (margin : Z) (order : list Z) : bool :=
-  is_perm_of_range (length dists) order &&
-  ordered_by desc margin (map (fun i => nth (Z.to_nat i) dists 0) order).
+Definition check_sort (desc : bool) (lo hi : list Z) (order : list Z) : bool :=
+  (length lo =? length hi)%nat && is_perm_of_range (length lo) order && ordered_by desc lo hi order.
 
 (* ---------- check / explain ---------- *)
 
@@ -358,7 +362,7 @@ Definition check (c : case) : bool :=
       end
   | CBox e a b c d docs hits => check_box e a b c d docs hits
   | CShape e kind docs hits => check_shape e kind docs hits
-  | CSort desc dists margin order => check_sort desc dists margin order
+  | CSort desc lo hi order => check_sort desc lo hi order
   end.
 
 Inductive expl :=
@@ -397,7 +401,5 @@ Definition explain (c : case) : expl :=
   | CShape e kind docs hits =>
       EDocs (shape_early kind) (map (fun d => tv_code (spec_doc_shape d)) docs)
             (map (fun dh => model_allows_shape e (shape_early kind) (fst dh) (snd dh)) (combine docs hits)) []
-  | CSort desc dists margin order =>
-      EB (is_perm_of_range (length dists) order)
-         (ordered_by desc margin (map (fun i => nth (Z.to_nat i) dists 0) order))
+  | CSort desc lo hi order => EB (is_perm_of_range (length lo) order) (ordered_by desc lo hi order)
   end.
